@@ -6,7 +6,7 @@ WT=/tmp/seed/wt-$P
 OUT=/tmp/seed/out/$P
 cd $WT || exit 2
 git checkout -q -- src
-cp $OUT/$X.demo.rs tests/seed_demo_$X.rs
+mkdir -p tests; cp $OUT/$X.demo.rs tests/seed_demo_$X.rs
 base=$(cargo test --offline --test seed_demo_$X 2>&1 | grep "test result" | head -1)
 git apply $OUT/$X.patch.diff || { echo "$P-$X: patch does not apply"; exit 1; }
 suite=$(cargo test --offline --lib 2>&1 | grep "test result" | head -1)
